@@ -664,6 +664,133 @@ GEN(int) @G(n int) {
 	YIELDFROM(GENCALL(int, @Inner, n-7))
 	RETURN
 }`, Drives: []Drive{gen("int", "@G", "1"), gen("int", "@G", "7"), gen("int", "@G", "9"), gen("int", "@G", "5")}},
+
+	// ---------------- repaired findings (D9, D10e, D12, D13): the witnesses now have to agree or be rejected ----------------
+	{Name: "EtaMethodValue", Props: []string{"C13", "C07"}, Src: `
+type @S struct{ v int }
+func (s *@S) Get() int { return s.v }
+func @F() int {
+	s := &@S{1}
+	get := func() int { return s.Get() } // must call through the CURRENT s
+	s = &@S{2}
+	return get()
+}
+GEN(int) @G() { YIELD(@F()); RETURN }`, Drives: []Drive{fn("int", "@F", "")}},
+
+	{Name: "EtaFuncVariable", Props: []string{"C13", "C07"}, Src: `
+func @F() int {
+	h := func(x int) int { return x }
+	call := func(x int) int { return h(x) } // h is a variable: evaluated at call time
+	h = func(x int) int { return x * 10 }
+	return call(2)
+}
+GEN(int) @G() { YIELD(@F()); RETURN }`, Drives: []Drive{fn("int", "@F", "")}},
+
+	{Name: "EtaBuiltin", Props: []string{"C13", "C11", "C07"}, Src: `
+func @F(s string) int {
+	f := func(s string) int { return len(s) }
+	return f(s)
+}
+GEN(int) @G() { YIELD(@F("abc")); RETURN }`, Drives: []Drive{fn("int", "@F", `"abc"`)}},
+
+	{Name: "IfInitYield", Props: []string{"C12"}, MayReject: true, Src: `
+GEN(int) @G(n int) {
+	if YIELD(1); n > 0 {
+		YIELD(2)
+	}
+	RETURN
+}`, Drives: []Drive{gen("int", "@G", "1")}},
+
+	{Name: "RangePointerToArray", Props: []string{"C12", "C04"}, MayReject: true, Src: `
+GEN(int) @G() {
+	a := &[3]int{1, 2, 3}
+	for _, v := range a { YIELD(v) }
+	RETURN
+}`, Drives: []Drive{gen("int", "@G", "")}},
+
+	{Name: "GotoInsideClosure", Props: []string{"C12", "C11", "C13"}, Src: `
+GEN(int) @G(n int) {
+	f := func(k int) int { // an ordinary closure: goto is legal Go here and none of the generator's business
+		i := 0
+	again:
+		if i < k { i++; goto again }
+		return i
+	}
+	YIELD(f(n))
+	RETURN
+}`, Drives: []Drive{gen("int", "@G", "3")}},
+
+	{Name: "ForRangeIterNoVar", Props: []string{"C06", "C11"}, Src: `
+GEN(int) @Nat(n int) { for i := 0; i < n; i++ { YIELD(i) }; RETURN }
+func @F(n int) int {
+	c := 0
+	RANGEITER(, , GENCALL(int, @Nat, n)) { c++ }
+	return c
+}`, Drives: []Drive{fn("int", "@F", "3")}},
+
+	{Name: "EtaShapes", Props: []string{"C13", "C07", "C11"}, Src: `
+type @Node struct { v int; next *@Node }
+func (n *@Node) Valid() bool { return n != nil }
+func @id[T any](x T) T { return x }
+func @dbl(x int) int { return 2 * x }
+type @Fns struct{ f func(int) int }
+func @F(n int) int {
+	conv := func(x int) int64 { return int64(x) }      // a conversion is not a function value
+	gen := func(x int) int { return @id(x) }            // an uninstantiated generic function is not a value
+	inst := func(x int) int { return @id[int](x) }      // explicit instantiation: fine either way
+	pkgf := func(x int) int { return @dbl(x) }          // declared function: fine either way
+	fs := @Fns{f: @dbl}
+	fld := func(x int) int { return fs.f(x) }           // field of function type: must see later assignments
+	fs.f = func(x int) int { return x + 1000 }
+	mk := func(x int) []int { return make([]int, x) }   // builtin with a type argument: not even eta shape
+	vari := func(xs ...int) int { return len(xs) }
+	return int(conv(n)) + gen(n) + inst(n) + pkgf(n) + fld(n) + len(mk(n)) + vari(1, 2)
+}
+GEN(int) @Walk(head *@Node) {
+	for n := head; n.Valid(); n = n.next { // the condition closure must call Valid on the CURRENT n
+		YIELD(n.v)
+	}
+	RETURN
+}
+func @List(k int) *@Node {
+	var h *@Node
+	for i := k; i > 0; i-- { h = &@Node{i, h} }
+	return h
+}`, Drives: []Drive{fn("int", "@F", "3"), gen("int", "@Walk", "@List(3)"), gen("int", "@Walk", "nil")}},
+
+	{Name: "ClosureControlFlow", Props: []string{"C12", "C13", "C11"}, Src: `
+GEN(int) @G(n int) {
+	sel := func(ch chan int) int { // break inside select inside an ordinary closure stays a break
+		r := 0
+		select {
+		case v := <-ch:
+			if v > 0 { break }
+			r = -1
+		default:
+			r = -2
+		}
+		return r + 100
+	}
+	sw := func(k int) int {
+		for i := 0; ; i++ {
+			switch {
+			case i == k: return i
+			case i > 100: break
+			default: continue
+			}
+			return -1
+		}
+	}
+	ch := make(chan int, 1)
+	YIELD(sel(ch))
+	ch <- n
+	YIELD(sel(ch))
+	for i := 0; i < n; i++ {
+		f := func() int { for j := 0; j < 5; j++ { if j == i { break }; if j > i { continue } }; return i }
+		YIELD(f() + sw(i))
+	}
+	RETURN
+}`, Drives: []Drive{gen("int", "@G", "2"), gen("int", "@G", "0")}},
 }
 
 // Findings: witnesses of known findings (expected to differ or to be rejected on this tree)
@@ -689,33 +816,6 @@ GEN(int) @G(n int) {
 	RETURN
 }`, Drives: []Drive{gen("int", "@G", "2")}},
 
-	{Name: "EtaMethodValue", Props: []string{"C13", "C07"}, Finding: "D9", Src: `
-type @S struct{ v int }
-func (s *@S) Get() int { return s.v }
-func @F() int {
-	s := &@S{1}
-	get := func() int { return s.Get() } // must call through the CURRENT s
-	s = &@S{2}
-	return get()
-}
-GEN(int) @G() { YIELD(@F()); RETURN }`, Drives: []Drive{fn("int", "@F", "")}},
-
-	{Name: "EtaFuncVariable", Props: []string{"C13", "C07"}, Finding: "D9", Src: `
-func @F() int {
-	h := func(x int) int { return x }
-	call := func(x int) int { return h(x) } // h is a variable: evaluated at call time
-	h = func(x int) int { return x * 10 }
-	return call(2)
-}
-GEN(int) @G() { YIELD(@F()); RETURN }`, Drives: []Drive{fn("int", "@F", "")}},
-
-	{Name: "EtaBuiltin", Props: []string{"C13", "C11", "C07"}, Finding: "D9", Src: `
-func @F(s string) int {
-	f := func(s string) int { return len(s) }
-	return f(s)
-}
-GEN(int) @G() { YIELD(@F("abc")); RETURN }`, Drives: []Drive{fn("int", "@F", `"abc"`)}},
-
 	{Name: "ConsumerRedeclaresLoopVar", Props: []string{"C06", "C11"}, Finding: "D11b", Src: `
 GEN(int) @Nat(n int) { for i := 0; i < n; i++ { YIELD(i) }; RETURN }
 func @F(n int) int {
@@ -725,40 +825,5 @@ func @F(n int) int {
 		s += v
 	}
 	return s
-}`, Drives: []Drive{fn("int", "@F", "3")}},
-
-	{Name: "IfInitYield", Props: []string{"C12"}, Finding: "D12", Src: `
-GEN(int) @G(n int) {
-	if YIELD(1); n > 0 {
-		YIELD(2)
-	}
-	RETURN
-}`, Drives: []Drive{gen("int", "@G", "1")}},
-
-	{Name: "RangePointerToArray", Props: []string{"C12", "C04"}, Finding: "D12", Src: `
-GEN(int) @G() {
-	a := &[3]int{1, 2, 3}
-	for _, v := range a { YIELD(v) }
-	RETURN
-}`, Drives: []Drive{gen("int", "@G", "")}},
-
-	{Name: "GotoInsideClosure", Props: []string{"C12", "C11", "C13"}, Finding: "D13", Src: `
-GEN(int) @G(n int) {
-	f := func(k int) int { // an ordinary closure: goto is legal Go here and none of the generator's business
-		i := 0
-	again:
-		if i < k { i++; goto again }
-		return i
-	}
-	YIELD(f(n))
-	RETURN
-}`, Drives: []Drive{gen("int", "@G", "3")}},
-
-	{Name: "ForRangeIterNoVar", Props: []string{"C06", "C11"}, Finding: "D10e", Src: `
-GEN(int) @Nat(n int) { for i := 0; i < n; i++ { YIELD(i) }; RETURN }
-func @F(n int) int {
-	c := 0
-	RANGEITER(, , GENCALL(int, @Nat, n)) { c++ }
-	return c
 }`, Drives: []Drive{fn("int", "@F", "3")}},
 }
